@@ -4,6 +4,9 @@
                           | A <n> <min|-> <max|-> <0|1 nullable> node^n
                           | O <n> <ap> <0|1 nullable> (<hex key> <0|1 optional> node)^n        ap ::= f | y | ti | tn | ts | tb | w<hex type name>
                           | F <hex type name without @> <0|1 nullable>
+                          | C <n> <0|1 nullable> <hex type name>^n            (a type choice)
+                          | T <hex example> <hex type name> <0|1 nullable>    (a scalar with type: "@name")
+                        alt ::= .. | r <hex type name> <0|1 nullable>
    -> the Schema Object in a canonical spelling:
       L(<keywords of oasx, separated by ;>)   Y(nullable;[node,..])   A(mn=..;mx=..;nullable;[node,..])   O(req=[hexkey,..];ap=..;nullable;{hexkey:node,..})   F(nullable;hexname) *)
 From Coq Require Import String List ZArith NArith Bool.
@@ -41,6 +44,10 @@ Fixpoint parse_snode (fuel : nat) (l : list bytes) : option (snode * list bytes)
                                      | None => None end
                    | [111%N] :: l1 => match alts k' l1 with Some (xs, l3) => Some (OAObject :: xs, l3) | None => None end
                    | [97%N] :: l1 => match alts k' l1 with Some (xs, l3) => Some (OAArray :: xs, l3) | None => None end
+                   | [114%N] :: h :: rn :: l1 =>                                        (* r <hex type name> <0|1 nullable> *)
+                     match unhex_dash h, alts k' l1 with
+                     | Some name, Some (xs, l3) => Some (OARef name (beqb rn [49%N]) :: xs, l3)
+                     | _, _ => None end
                    | _ => None
                    end
                  end) (N.to_nat cnt) r with
@@ -79,6 +86,23 @@ Fixpoint parse_snode (fuel : nat) (l : list bytes) : option (snode * list bytes)
       | _, _ => None end
     | [70%N] :: h :: nu :: r =>
       match unhex_dash h with Some name => Some (SRef name (beqb nu [49%N]), r) | None => None end
+    | [67%N] :: n :: nu :: r =>                                                         (* C <n> <nullable> <hex name>^n *)
+      match dec n with
+      | Some cnt =>
+        match (fix names (k : nat) (l : list bytes) : option (list bytes * list bytes) :=
+                 match k with
+                 | O => Some ([], l)
+                 | S k' => match l with
+                           | h :: l1 => match unhex_dash h, names k' l1 with Some x, Some (xs, l2) => Some (x :: xs, l2) | _, _ => None end
+                           | [] => None end
+                 end) (N.to_nat cnt) r with
+        | Some (xs, rest) => Some (SChoice xs (beqb nu [49%N]), rest)
+        | None => None end
+      | None => None end
+    | [84%N] :: hex :: h :: nu :: r =>                                                   (* T <hex example> <hex name> <nullable> *)
+      match unhex_dash hex, unhex_dash h with
+      | Some ex, Some name => Some (SRefLit ex name (beqb nu [49%N]), r)
+      | _, _ => None end
     | _ => None
     end
   end.
@@ -106,11 +130,17 @@ Fixpoint show_otree (t : otree) : bytes :=
   | OAnyOf alts nu => B"Y(" ++ join [59%N] ((if nu then [B"nullable"] else []) ++ [B"[" ++ join [44%N] (map show_otree alts) ++ B"]"]) ++ B")"
   | OArr items mn mx nu =>
     B"A(" ++ join [59%N] (show_optz B"mn=" mn ++ show_optz B"mx=" mx ++ (if nu then [B"nullable"] else []) ++
-                          [B"[" ++ join [44%N] (map show_otree items) ++ B"]"]) ++ B")"
+                          [B"[" ++ join [44%N] (match items with
+                                                 | [OChoice names false] => map (fun n => B"F(" ++ hex n ++ B")") names
+                                                   (* items = {"anyOf": [refs]}: the same JSON as an array with these references as its items *)
+                                                 | _ => map show_otree items
+                                                 end) ++ B"]"]) ++ B")"
   | OObj props req ap nu =>
     B"O(" ++ join [59%N] ([B"req=[" ++ join [44%N] (map hex req) ++ B"]"; B"ap=" ++ show_ap ap] ++ (if nu then [B"nullable"] else []) ++
                           [B"{" ++ join [44%N] (map (fun p => hex (fst p) ++ B":" ++ show_otree (snd p)) props) ++ B"}"]) ++ B")"
   | ORef n nu => B"F(" ++ join [59%N] ((if nu then [B"nullable"] else []) ++ [hex n]) ++ B")"
+  | OChoice names nu => B"Y(" ++ join [59%N] ((if nu then [B"nullable"] else []) ++
+                                               [B"[" ++ join [44%N] (map (fun n => B"F(" ++ hex n ++ B")") names) ++ B"]"]) ++ B")"
   end.
 
 Definition run_oast (ts : list bytes) : bytes :=
